@@ -447,6 +447,15 @@ def split_std_groups(text):
     return "".join(out)
 
 
+def plain_static_names(text):
+    t = re.sub(r"(?s)thread_local!\s*\{.*?\n\}", "", text)
+    names = []
+    for m in re.finditer(r"(?m)^\s*(?:pub(?:\([a-z]+\))?\s+)?static\s+(?:mut\s+)?([A-Za-z_][A-Za-z0-9_]*)\s*:\s*([^=;]+)", t):
+        if not re.match(r"(crate::vsync::|std::sync::)?LazyLock\s*<", m.group(2).strip()):
+            names.append(m.group(1))
+    return names
+
+
 def has_plain_static(text):
     """a `static` item (outside thread_local!) that is not a LazyLock: state shared between threads whose
     construction or use the library synchronises by hand (LazyLock keeps a value under construction
@@ -483,6 +492,12 @@ def loop_points(text):
 n_sync = 0
 n_loops = 0
 src = os.path.join(repo, "src")
+# names of hand-synchronised statics anywhere in the library: files that mention one get loop-entry points too
+PLAIN_STATICS = []
+for root, dirs, files in os.walk(src):
+    for f in files:
+        if f.endswith(".rs") and f != "verif_hooks.rs":
+            PLAIN_STATICS += plain_static_names(open(os.path.join(root, f)).read())
 for root, dirs, files in os.walk(src):
     rel = os.path.relpath(root, src)
     for f in files:
@@ -504,7 +519,7 @@ for root, dirs, files in os.walk(src):
             # `use std::{sync::X, ...}` style imports would escape the substitution: refuse loudly
             if re.search(r"use\s+std::\{[^}]*\b(sync|thread)\b", s):
                 sys.exit(f"port_conc: grouped std import of sync/thread in {f}: extend the port script")
-            if f != "verif_hooks.rs" and has_plain_static(s):
+            if f != "verif_hooks.rs" and (has_plain_static(s) or any(re.search(r"\b" + re.escape(n) + r"\b", s) for n in PLAIN_STATICS)):
                 s, n_loop = loop_points(s)
                 n_loops += n_loop
             if f == "tables.rs":
